@@ -75,13 +75,13 @@ func (f *Mapcar) Call(s *slip.Scope, args slip.List, depth int) (result slip.Obj
 				l2 := args[i].(slip.List)
 				ca[i-1] = l2[n]
 			}
-			rlist[n] = caller.Call(s, ca, d2)
+			rlist[n] = firstValue(caller.Call(s, ca, d2))
 		}
 	} else {
 		// The most common case.
 		rlist = make(slip.List, len(list))
 		for i, v := range list {
-			rlist[i] = caller.Call(s, slip.List{v}, d2)
+			rlist[i] = firstValue(caller.Call(s, slip.List{v}, d2))
 		}
 	}
 	return rlist
